@@ -226,6 +226,11 @@ class SoftwareManager:
             session_id=session_id,
         )
 
+    @staticmethod
+    def _is_running(software: IOSoftware) -> bool:
+        """Whether a Service or Application is in its RUNNING operating state."""
+        return software.operating_state in {ApplicationOperatingState.RUNNING, ServiceOperatingState.RUNNING}
+
     def receive_payload_from_session_manager(
         self,
         payload: Any,
@@ -245,20 +250,21 @@ class SoftwareManager:
         """
         if payload.__class__.__name__ == "PortScanPayload":
             nmap = self.software.get("nmap")
-            if nmap:
+            if nmap and self._is_running(nmap):
                 nmap.receive(payload=payload, session_id=session_id)
             else:
-                self.sys_log.warning("Port scan payload dropped as nmap is not installed")
+                self.sys_log.warning("Port scan payload dropped as nmap is not installed or not running")
             return
         main_receiver = self.port_protocol_mapping.get((port, protocol), None)
-        if main_receiver:
+        # software that is not running does not handle payloads
+        if main_receiver and self._is_running(main_receiver):
             main_receiver.receive(
                 payload=payload, session_id=session_id, from_network_interface=from_network_interface, frame=frame
             )
         listening_receivers = [
             software
             for software in self.software.values()
-            if port in software.listen_on_ports and software != main_receiver
+            if port in software.listen_on_ports and software != main_receiver and self._is_running(software)
         ]
         for receiver in listening_receivers:
             receiver.receive(
